@@ -15,6 +15,7 @@ import (
 // select, the decision must be right for it.
 
 var vfC18 struct {
+	path    string             // URL.Path of the request being served
 	matched *openapi3.PathItem // the path item the matchers selected (nil: none)
 	items   []*openapi3.PathItem
 	status  int
@@ -23,6 +24,7 @@ var vfC18 struct {
 
 //verif:stub (github.com/getkin/kin-openapi/openapi3.Paths).Find
 func vfStubFind(p openapi3.Paths, path string) *openapi3.PathItem {
+	vfAssert(path == vfC18.path, "operation-looked-up-by-the-request-path")
 	i := vfLen("find.choice", len(vfC18.items))
 	if i < len(vfC18.items) {
 		vfC18.matched = vfC18.items[i]
@@ -35,6 +37,7 @@ var vfCurrentItem int
 
 //verif:stub regexp.MatchString
 func vfStubMatchString(pattern string, s string) (bool, error) {
+	vfAssert(s == vfC18.path, "operation-looked-up-by-the-request-path")
 	return vfBool("regexp-matches"), nil // arbitrary answer
 }
 
@@ -50,6 +53,21 @@ func vfStubMustCompile(expr string) *regexp.Regexp { return &regexp.Regexp{} }
 //verif:stub (*regexp.Regexp).ReplaceAllString
 func vfStubReplaceAllString(re *regexp.Regexp, src, repl string) string {
 	return "pattern"
+}
+
+// Other renderings of the URL differ from the path as soon as there is a query string.
+//
+//verif:stub (*net/url.URL).RequestURI
+func vfStubRequestURI(u *url.URL) string {
+	if u.RawQuery == "" && !u.ForceQuery {
+		return u.Path
+	}
+	return vfUFAtom("request-uri", u.Path, u.RawQuery)
+}
+
+//verif:stub (*net/url.URL).String
+func vfStubURLString(u *url.URL) string {
+	return vfUFAtom("url-string", u.Path, u.RawQuery)
 }
 
 //verif:stub net/http.Error
@@ -107,7 +125,7 @@ func vfMarkedReadOnly(op *openapi3.Operation) bool {
 }
 
 func H_C18_decision_kernel() {
-	item := &openapi3.PathItem{Get: vfOperation("get", 6), Post: vfOperation("post", 6), Put: vfOperation("put", vfParam("kinds", 2)), Delete: vfOperation("delete", vfParam("kinds", 2))}
+	item := &openapi3.PathItem{Get: vfOperation("get", vfParam("gpkinds", 6)), Post: vfOperation("post", vfParam("gpkinds", 6)), Put: vfOperation("put", vfParam("kinds", 2)), Delete: vfOperation("delete", vfParam("kinds", 2))}
 	vfC18.items = []*openapi3.PathItem{item}
 	spec := &openapi3.T{Paths: openapi3.Paths{"/some/{param}/path": item}}
 	vfC18.matched, vfC18.status, vfC18.passed = nil, 0, false
@@ -121,8 +139,21 @@ func H_C18_decision_kernel() {
 		return spec, nil
 	})(next)
 	methods := []string{"GET", "POST", "PUT", "DELETE", "PATCH", "HEAD", "OPTIONS"}
+	// an arbitrary earlier request served by the same middleware instance: the decision for the
+	// observed request must not depend on it
+	if vfParam("history", 1) > 0 && vfBool("earlier-request") {
+		m0 := methods[vfLen("earlier.method", 1)] // GET or POST
+		vfC18.path = vfAtom("earlier.path")
+		h.ServeHTTP(vfRecorder{}, &http.Request{Method: m0, URL: &url.URL{Path: vfC18.path}})
+		vfC18.matched, vfC18.status, vfC18.passed = nil, 0, false
+	}
 	method := methods[vfLen("method", len(methods)-1)]
-	req := &http.Request{Method: method, URL: &url.URL{Path: vfAtom("path")}}
+	vfC18.path = vfAtom("path")
+	query := ""
+	if vfBool("has-query") {
+		query = vfAtom("query")
+	}
+	req := &http.Request{Method: method, URL: &url.URL{Path: vfC18.path, RawQuery: query}}
 	h.ServeHTTP(vfRecorder{}, req)
 
 	// which path item did the matchers select? Find's choice, else the regexp fallback
